@@ -7,6 +7,10 @@ other fields hex), pattern lists `,`-joined (`-` empty), names `space:loc` (hex)
     lookup <k> <typ> <name> <patterns>            -> <pattern> | none
     route <stanzaNS> <name> <patterns>            -> h=<pattern> | router | nop
     children <k> <typ> <patterns> <toks> <cons>   -> `/`-joined <pattern>=<toks read> of the registered handlers that ran
+    direct <sep|eof> <k> <typ> <patterns> <toks> <cons> <errs>
+                                                  -> the same `|err=`<ordinals of the failed calls>; HandleXMPP called on a
+                                                     reader of that end-of-input framing, handlers in <errs> return an error
+    iqdirect <sep|eof> <typ> <patterns> <toks> <c> -> h=<pattern>@<payload name>=<toks read> | fallback | nothing | err
     iqdefault <typ> <name> <patterns>             -> h=<pattern> | fallback | nothing
     hist <stanzaNS> <op,op,…>                     -> `;`-joined results; op = R<pattern> | R!<pattern> (nil handler) |
                                                      L<pattern as query> | D<name>
@@ -77,6 +81,23 @@ def handle (args : List String) : Option String :=
     let calls := (forChildren pats k typ toks cons).filterMap fun c =>
       c.pat.map fun p => encPattern p ++ "=" ++ encToks c.view
     pure (if calls.isEmpty then "-" else "/".intercalate calls)
+  | ["direct", fr, k, typ, pats, toks, cons, errs] => do
+    let fr ← (if fr == "sep" then some Framing.sep else if fr == "eof" then some Framing.eof else none)
+    let k ← decKind k; let typ ← field typ; let pats ← decPatterns pats
+    let toks ← decToks toks; let cons ← decNats cons; let errs ← decNats errs
+    let all := forChildrenF fr pats k typ toks cons
+    let calls := all.filterMap fun c =>
+      c.pat.map fun p => encPattern p ++ "=" ++ encToks c.view
+    let failed := failedCalls all errs
+    let e := if failed.isEmpty then "-" else ",".intercalate (failed.map toString)
+    pure ((if calls.isEmpty then "-" else "/".intercalate calls) ++ "|err=" ++ e)
+  | ["iqdirect", _fr, typ, pats, toks, c] => do
+    let typ ← field typ; let pats ← decPatterns pats; let toks ← decToks toks; let c ← c.toNat?
+    pure (match iqRoute pats typ toks c with
+      | .handler p n view => "h=" ++ encPattern p ++ "@" ++ hexF n.space ++ ":" ++ hexF n.loc ++ "=" ++ encToks view
+      | .fallback => "fallback"
+      | .nothing => "nothing"
+      | .err => "err")
   | ["iqdefault", typ, n, pats] => do
     let typ ← field typ; let n ← decName n; let pats ← decPatterns pats
     pure (match iqDispatch pats typ n with
